@@ -833,6 +833,12 @@ class StoreRun:
         src_external = fs.canonical(sf, sp) is None
         if src_external and overwrite:
             raise Skip("overwrite could truncate the file the external source lives in")
+        if src_external and same and kind in ("mv", "ln"):
+            r_ = fs.lookup2(sf, sp)
+            if r_ is not None and r_[1] == df:
+                # external links leading back into this very file: libhdf5 treats the object as
+                # local and allows the hard link; not generated
+                raise Skip("source reaches this file again through external links")
         if src_external and kind == "cp" and not same:
             # bound: H5Ocopy through an external link that (possibly via a chain)
             # points into the destination file segfaults in libhdf5 2.0.0
